@@ -23,6 +23,7 @@ from the recorded final statuses; the reporter automaton's prediction is compare
 import json
 import os
 import random
+import re
 import time
 from concurrent.futures import ThreadPoolExecutor
 
@@ -30,6 +31,7 @@ from vlib import trace, tlc as _tlc
 from run import gen as G, stage, drive
 from run.render import Rendered
 from props import c16_xml
+from run import reports_c16 as RP
 
 WORKERS = int(os.environ.get("VERIF_WORKERS") or 16)
 PROCS = int(os.environ.get("VERIF_PROCS") or 14)
@@ -63,7 +65,7 @@ def mk_job(key, prog, flat, cfg, fault, fault_kind="exc", sw=None, all_writers=F
     if fault_text is not None:
         job["fault_text"] = fault_text
         job["hook"] = list(hook or ["", []])
-    job["extra_args"] = switch_args(job["sw"])
+    job["extra_args"] = switch_args(job["sw"]) + list(RP.RECORDER_ARGS)     # (keeps the scenario objects that ran)
     if not all_writers:
         job["formats"] = []
         job["extra_args"] = ["--no-summary"] + job["extra_args"]
@@ -87,9 +89,18 @@ def make_row(rid, job, out):
                       "cases": [{"el": c["el"], "status": c["status"],
                                  "entries": [{"kind": e["kind"], "steps": e["steps"], "hook": bool(e["hook"])} for e in c["entries"]]}
                                 for c in f["cases"]]})
+    # final statuses: of the scenario objects that ran (announced to the formatters) where there is one, else of the walk
+    # over the model after the run
+    ran = rep.get("ran") or {"recorded": False}
+    status, steps, hookf = list(end["status"]), list(end["step_status"]), list(end["hook_failed"])
+    if ran.get("recorded"):
+        for k, st in enumerate(ran["status"]):
+            if st:
+                status[k], steps[k], hookf[k] = st, ran["steps"][k], ran["hook_failed"][k]
+    end = dict(end, status=status, step_status=steps, hook_failed=hookf)
     return {"id": rid, "prog": slim_prog(job["flat"]),
             "cfg": {"show_skipped": bool(job["cfg"]["show_skipped"]), "dry": bool(job["cfg"]["dry"]),
-                    "retry": bool(job["cfg"].get("retry", False))},
+                    "retry": bool(job["cfg"].get("retry", False)), "fault_kbd": job.get("fault_kind") == "kbd"},
             "sw": {"show_skipped_always": bool(job["sw"].get("show_skipped_always", False))},
             "end": {"escaped": end["escaped"] or "", "status": end["status"], "step_status": end["step_status"],
                     "hook_failed": end["hook_failed"]},
@@ -140,6 +151,7 @@ GUARANTEED = [
     ("rule_with_problem", lambda j: job_class(j)[5] and (job_class(j)[2] or job_class(j)[3]) and not j["cfg"]["dry"]),
     ("several_features", lambda j: job_class(j)[9]),
     ("continue_after_failed_step", lambda j: j["cfg"]["cont"] and job_class(j)[2] and not j["cfg"]["dry"]),
+    ("hooks_read_status_and_hook_fault", lambda j: j["cfg"].get("observe") and job_class(j)[1] and not j["cfg"]["dry"]),
 ]
 
 
@@ -243,12 +255,17 @@ def plan_jobs(chk, quota, rnd):
         jobs = keep + rnd.sample(jobs, quota * 8)
     picked = thin(jobs, quota, rnd)
     out = []
+    nmulti = [0]
     for n, j in enumerate(picked):
         prog, flat = j["prog"], j["flat"]
         if n % 8 == 3 and not j["cfg"]["dry"]:                     # every eighth case with raising cleanups added
             p2 = with_cleanups(prog, rnd)
             if p2 is not None:
                 prog, flat = p2, G.flatten(p2)
+        if len(prog["features"]) > 1:
+            nmulti[0] += 1
+            if nmulti[0] % 2 == 0:                                 # every second program with several features: f.<i>.feature
+                prog = dict(prog, dotfiles=True)
         out.append(mk_job(["run"] + j["key"], prog, flat, j["cfg"], j["fault"], j["fault_kind"], all_writers=(n % 8 == 7)))
     return out, total
 
@@ -360,6 +377,11 @@ def hook_jobs(rnd, quick):
             for k, (cl, text) in enumerate(hook_payloads(rnd, quick)):
                 jobs.append(mk_job(["hook", pname, name, len(jobs)], prog, flat, cfg, [n, 0], "assert" if k % 3 == 0 else "exc",
                                    kind="hook", fault_text=text, hook=[name, cl]))
+            # cfg observe: the hooks READ scenario / feature / rule status before they raise (a cached status must not survive)
+            for show in (True, False):
+                for fk in ("exc", "assert"):
+                    jobs.append(mk_job(["hook", pname, name, "observe", len(jobs)], prog, flat, G.cfg(observe=True, show_skipped=show),
+                                       [n, 0], fk, kind="hook"))
     return jobs
 
 
@@ -497,8 +519,38 @@ def judge(chk, rows, metas):
     return verdicts, diverge
 
 
+class _DotFiles(object):
+    """prog["dotfiles"]: the feature files are called f.<i>.feature instead of f<i>.feature (file names that are equal up
+    to their FIRST dot); the driver and the plug-ins map files by the names of Rendered.files, so renaming them there
+    (for the duration of one case, in this process only) keeps every mapping intact"""
+    def __enter__(self):
+        self.saved = drive.Rendered
+        base = self.saved
+
+        class Dotted(base):
+            def __init__(self, prog, flat):
+                base.__init__(self, prog, flat)
+                if prog.get("dotfiles"):
+                    self.files = [(re.sub(r"^f(\d+)\.feature$", r"f.\1.feature", fn), t) for fn, t in self.files]
+        drive.Rendered = Dotted
+
+    def __exit__(self, *a):
+        drive.Rendered = self.saved
+
+
+def run_one(job):
+    try:
+        with _DotFiles():
+            row = drive.run_case(job, reports=True)
+        row["key"] = job["key"]
+        return row
+    except Exception:
+        import traceback
+        return {"key": job["key"], "driver_error": traceback.format_exc()}
+
+
 def run_jobs(jobs):
-    outs = stage.drive_all(jobs, procs=PROCS)
+    outs = pmap(run_one, jobs)
     for o in outs:
         if "driver_error" in o:
             raise RuntimeError("driver failed on %s:\n%s" % (o["key"], o["driver_error"]))
@@ -526,7 +578,7 @@ def run(chk):
         xml_rule, chk.rule = chk.rule, ""
         walls["xml"] = round(time.time() - t0, 1)
         # 3. real runs of the shared plan
-        jobs, planned = plan_jobs(chk, 1200 if quick else 20000, rnd)
+        jobs, planned = plan_jobs(chk, 1000 if quick else 20000, rnd)
         # 4. userdata switches on cases with skipped scenarios, problems and outlines
         base = [j for j in jobs if not j["all_writers"]]
         pool = [j for j in base if job_class(j)[6]] + base
